@@ -124,13 +124,14 @@ def engines (st : St) : Engines (Search.Eng Move) :=
     dfpn := fun att entries p => Tak.DFPN.takProve st.basis dfpnScale solverFuel att entries p
     formatTPS := Tak.TPS.formatTPS }
 
-def fmtOut (o : Out Unit) : String :=
-  match o with
-  | (_, .error (.panic _)) => "panic"        -- the harness reports a Go panic as `panic`, whatever was printed before
-  | (_, .error (.hang _)) => "hang"
-  | (_, .error (.unmodelled w)) => "unmodelled:" ++ w
-  | (ls, .error (.fatal _)) => " | ".intercalate (ls ++ ["FATAL"])
-  | (ls, .ok _) => if ls.isEmpty then "-" else " | ".intercalate ls
+def fmtOut (env : PTN.Env) (o : Out Unit) : String :=
+  let ls := o.lines env
+  match o.2 with
+  | .error (.panic _) => "panic"        -- the harness reports a Go panic as `panic`, whatever was printed before
+  | .error (.hang _) => "hang"
+  | .error (.unmodelled w) => "unmodelled:" ++ w
+  | .error (.fatal _) => " | ".intercalate (ls ++ ["FATAL"])
+  | .ok _ => if ls.isEmpty then "-" else " | ".intercalate ls
 
 /-! ### gencorpus -/
 
@@ -178,7 +179,7 @@ def handleCmd : Handler := fun st op args =>
       | _, none => "bad-hex"
       | .err, _ => "flagerr"
       | .unmodelled w, _ => "unmodelled:" ++ w
-      | .ok f, some input => fmtOut (execute (PTN.realEnv st.basis) (engines st) f input))
+      | .ok f, some input => fmtOut (PTN.realEnv st.basis) (execute (PTN.realEnv st.basis) (engines st) f input))
   | "cmd.gc", analysis :: _size :: ptoks =>
     some (st, match ptoks.mapM parsePos with
       | none => "bad-pos"
